@@ -40,6 +40,7 @@ RMul(x, y)   == Strict([i \in 1..Len(x) |-> QMul(x[i], y[i])])
 RDiv(x, y)   == Strict([i \in 1..Len(x) |-> QDiv(x[i], y[i])])
 RScal(s, x)  == Strict([i \in 1..Len(x) |-> QMul(s, x[i])])
 RNeg(x)      == Strict([i \in 1..Len(x) |-> QNeg(x[i])])
+RPow(x, k)   == Strict([i \in 1..Len(x) |-> QPowN(x[i], k)])
 RIsZero(x)   == \A i \in 1..Len(x) : x[i] = QZero
 RNoZero(x)   == \A i \in 1..Len(x) : x[i] # QZero
 RSumAll(x)   == QSumSeq([i \in 1..Len(x) |-> x[i]])
@@ -107,8 +108,10 @@ LeafOps == {"L1", "L2", "L2sq", "Linf", "GroupL1", "Huber", "IndBox", "IndNonneg
 IsLeaf(f) == f.args = <<>>
 
 \* scalar Huber profile on t >= 0 given t^2 = q
+\* (gamma = 0 is documented as the un-smoothed case: the (group) L1 norm)
 HuberOfSq(gam, q) ==
-  IF QLe(q, QSq(gam)) THEN QDiv(q, QMul(QI(2), gam))
+  IF gam = QZero THEN XSqrt(q)
+  ELSE IF QLe(q, QSq(gam)) THEN QDiv(q, QMul(QI(2), gam))
   ELSE LET r == XSqrt(q) IN IF XKnown(r) THEN QSub(r, QHalf(gam)) ELSE NaN
 
 Ind(b) == IF b THEN QZero ELSE Inf
@@ -179,8 +182,10 @@ Val(sp, f, x) ==
          IF \E i \in 1..Len(x) : x[i][1] <= 0 THEN Inf
          ELSE IF \A i \in 1..Len(x) : x[i] = PriorAt(f, i) THEN QZero ELSE NaN
     [] f.op = "KLcc"  ->      \* - sum w g ln(1 - x)
-         IF \E i \in 1..Len(x) : QGe(x[i], QOne) THEN Inf
-         ELSE IF RIsZero(x) THEN QZero ELSE NaN
+         \* (a zero prior entry contributes 0 for x_i <= 1 by the documented convention 0 log 0 = 0)
+         IF \E i \in 1..Len(x) : PriorAt(f, i) # QZero /\ QGe(x[i], QOne) THEN Inf
+         ELSE IF \E i \in 1..Len(x) : PriorAt(f, i) = QZero /\ QLt(QOne, x[i]) THEN NaN
+         ELSE IF \A i \in 1..Len(x) : PriorAt(f, i) = QZero \/ x[i] = QZero THEN QZero ELSE NaN
   ELSE  (* ---- derivation rules: the documented meaning ---- *)
   CASE f.op = "Translate" -> Val(sp, Arg(f), RSub(x, f.u))
     [] f.op = "ArgScale"  -> Val(sp, Arg(f), RScal(f.s, x))
@@ -195,6 +200,7 @@ Val(sp, f, x) ==
     [] f.op = "SepSum"    -> XAdd(Val(Part(sp, 1), Arg(f), PartVec(sp, x, 1)),
                                   Val(Part(sp, 2), Arg2(f), PartVec(sp, x, 2)))
     [] f.op = "Comp"      -> Val(sp, Arg(f), MatVec(f.v, x))
+    [] f.op = "CompPow"   -> Val(sp, Arg(f), RPow(x, f.s[1]))      \* f o PowerOperator(k): nonlinear inner operator
     [] f.op = "Prod"      -> XMul(Val(sp, Arg(f), x), Val(sp, Arg2(f), x))
     [] f.op = "Quot"      -> LET a == Val(sp, Arg(f), x)  b == Val(sp, Arg2(f), x)
                              IN IF XKnown(a) /\ XKnown(b) /\ b # QZero /\ ~Big(a) /\ ~Big(b) THEN QDiv(a, b) ELSE NaN
@@ -255,7 +261,8 @@ InSubdiff(sp, f, x, g) ==
     [] f.op = "Huber" ->
          \A i \in 1..NGrp(sp) :
            LET q == GSq(sp, x, i) IN
-           IF QLe(q, QSq(f.s)) THEN \A j \in GIdx(sp, i) : g[j] = QDiv(x[j], f.s)
+           IF f.s = QZero /\ q = QZero THEN QLe(GSq(sp, g, i), QOne)          \* gamma = 0: the norm itself
+           ELSE IF f.s # QZero /\ QLe(q, QSq(f.s)) THEN \A j \in GIdx(sp, i) : g[j] = QDiv(x[j], f.s)
            ELSE UnitDir(x, g, GIdx(sp, i), q)
     [] f.op = "IndBox"     -> BoxCone(f.s, f.c, x, g)
     [] f.op = "IndNonneg"  -> BoxCone(QZero, Inf, x, g)
@@ -313,7 +320,10 @@ InSubdiff(sp, f, x, g) ==
     [] f.op = "KL" ->
          \A i \in 1..N : x[i][1] > 0 /\ g[i] = QSub(QOne, QDiv(PriorAt(f, i), x[i]))
     [] f.op = "KLcc" ->
-         \A i \in 1..N : QLt(x[i], QOne) /\ g[i] = QDiv(PriorAt(f, i), QSub(QOne, x[i]))
+         \A i \in 1..N :
+           IF PriorAt(f, i) = QZero
+             THEN (QLt(x[i], QOne) /\ g[i] = QZero) \/ (x[i] = QOne /\ g[i][1] >= 0)   \* indicator of x_i <= 1
+             ELSE QLt(x[i], QOne) /\ g[i] = QDiv(PriorAt(f, i), QSub(QOne, x[i]))
   ELSE  (* ---- calculus of sub-differentials (exact for these rules) ---- *)
   CASE f.op = "Translate" -> InSubdiff(sp, Arg(f), RSub(x, f.u), g)
     [] f.op = "ArgScale"  -> InSubdiff(sp, Arg(f), RScal(f.s, x), RScal(QInv(f.s), g))
@@ -338,11 +348,11 @@ RECURSIVE HasSubdiff(_), Convex(_), FiniteValued(_)
 \* InSubdiff is a complete description of the sub-differential of f
 HasSubdiff(f) ==
   IF IsLeaf(f) THEN TRUE
-  ELSE IF f.op \in {"Sum", "Comp", "Prod", "Quot", "InfConv"} THEN FALSE
+  ELSE IF f.op \in {"Sum", "Comp", "CompPow", "Prod", "Quot", "InfConv"} THEN FALSE
   ELSE \A k \in 1..Len(f.args) : HasSubdiff(f.args[k])
 Convex(f) ==
   IF IsLeaf(f) THEN (f.op = "Quad" => \A i \in 1..Len(f.v) : f.v[i][1] >= 0)
-  ELSE IF f.op \in {"Prod", "Quot"} THEN FALSE
+  ELSE IF f.op \in {"Prod", "Quot", "CompPow"} THEN FALSE
   ELSE IF f.op = "LScale" /\ f.s[1] <= 0 THEN FALSE
   ELSE IF f.op = "QuadPert" /\ f.s[1] < 0 THEN FALSE
   ELSE \A k \in 1..Len(f.args) : Convex(f.args[k])
@@ -427,6 +437,7 @@ PolyDeg(sp, f) ==
     [] f.op = "Const" -> 0
     [] f.op = "GroupL1" -> IF PExp(f) = 2 THEN 99 ELSE 1
     [] f.op \in {"Translate", "ArgScale", "LScale", "RVec", "AddConst", "Comp"} -> PolyDeg(sp, Arg(f))
+    [] f.op = "CompPow" -> Min2(99, f.s[1] * PolyDeg(sp, Arg(f)))
     [] f.op = "QuadPert" -> Max2(PolyDeg(sp, Arg(f)), IF f.s = QZero THEN 1 ELSE 2)
     [] f.op = "Bregman"  -> Max2(PolyDeg(sp, Arg(f)), 1)
     [] f.op = "Sum"      -> Max2(PolyDeg(sp, Arg(f)), PolyDeg(sp, Arg2(f)))
@@ -466,6 +477,7 @@ Piece(sp, f, x) ==
     [] f.op = "ArgScale"  -> Piece(sp, Arg(f), RScal(f.s, x))
     [] f.op = "RVec"      -> Piece(sp, Arg(f), RMul(f.v, x))
     [] f.op = "Comp"      -> Piece(sp, Arg(f), MatVec(f.v, x))
+    [] f.op = "CompPow"   -> Piece(sp, Arg(f), RPow(x, f.s[1]))
     [] f.op \in {"LScale", "AddConst", "QuadPert", "Bregman"} -> Piece(sp, Arg(f), x)
     [] f.op \in {"Sum", "Prod"} -> Piece(sp, Arg(f), x) \o Piece(sp, Arg2(f), x)
     [] f.op = "SepSum" -> Piece(Part(sp, 1), Arg(f), PartVec(sp, x, 1)) \o
@@ -479,7 +491,8 @@ Differentiable(sp, f, x) ==
   CASE f.op = "L1" -> RNoZero(x)
     [] f.op = "L2" -> ~RIsZero(x)
     [] f.op = "GroupL1" -> \A k \in 1..Len(Piece(sp, f, x)) : Piece(sp, f, x)[k] # Edge
-    [] f.op \in {"L2sq", "Huber", "Quad", "Const"} -> TRUE
+    [] f.op \in {"L2sq", "Quad", "Const"} -> TRUE
+    [] f.op = "Huber" -> f.s # QZero \/ \A i \in 1..NGrp(sp) : GSq(sp, x, i) # QZero
     [] f.op = "KL"   -> \A i \in 1..Len(x) : x[i][1] > 0
     [] f.op = "KLcc" -> \A i \in 1..Len(x) : QLt(x[i], QOne)
     [] f.op = "Linf" -> Piece(sp, f, x) # <<Edge>>
@@ -487,6 +500,7 @@ Differentiable(sp, f, x) ==
     [] f.op = "ArgScale"  -> Differentiable(sp, Arg(f), RScal(f.s, x))
     [] f.op = "RVec"      -> Differentiable(sp, Arg(f), RMul(f.v, x))
     [] f.op = "Comp"      -> Differentiable(sp, Arg(f), MatVec(f.v, x))
+    [] f.op = "CompPow"   -> Differentiable(sp, Arg(f), RPow(x, f.s[1]))
     [] f.op \in {"LScale", "AddConst", "QuadPert", "Bregman"} -> Differentiable(sp, Arg(f), x)
     [] f.op \in {"Sum", "Prod"} -> Differentiable(sp, Arg(f), x) /\ Differentiable(sp, Arg2(f), x)
     [] f.op = "Quot" -> /\ Differentiable(sp, Arg(f), x) /\ Differentiable(sp, Arg2(f), x)
